@@ -49,6 +49,15 @@ def run (args : List Sexp) : Sexp :=
             match out with
             | .panic => (none, .list [.atom "panic"] :: st.2)
             | _ => (some s', .list ([.atom "r", outSx out] ++ stateSx s') :: st.2)
+        | .list [.atom "setres", nps, pods, nss] =>
+          match nps.args.mapM WorldParse.pObj, pods.args.mapM WorldParse.pObj, nss.args.mapM WorldParse.pObj with
+          | some nl, some pl, some sl =>
+            let nps' := nl.filterMap fun o => match o with | .np p => some p | _ => none
+            let pods' := pl.filterMap fun o => match o with | .pod p => some p | _ => none
+            let nss' := sl.filterMap fun o => match o with | .ns n => some n | _ => none
+            let (out, s') := s.setResources nps' pods' nss'
+            (some s', .list ([.atom "r", outSx out] ++ stateSx s') :: st.2)
+          | _, _, _ => (some s, .atom "bad-op" :: st.2)
         | .list [.atom "clear"] =>
           let s' : EState := { cache := { cap := cap } }
           (some s', .list ([.atom "r", .atom "ok"] ++ stateSx s') :: st.2)
